@@ -52,8 +52,10 @@ def _serialize_ds9(regions, precision=8):
         region_meta.pop('tag', None)  # "tag" cannot be in global metadata
         all_meta.append(region_meta)
 
-    global_meta = dict(set.intersection(*[set(meta_dict.items())
-                                          for meta_dict in all_meta]))
+    # keep the key order of the first region (a set has no defined order)
+    global_meta = {key: val for key, val in all_meta[0].items()
+                   if all(key in meta_dict and meta_dict[key] == val
+                          for meta_dict in all_meta[1:])}
     if global_meta:
         output += f'global {_make_meta_str(global_meta)}\n'
 
